@@ -72,9 +72,28 @@ LEVEL_TEXT = (
     "called from the handler, where a bare `raise` re-raises the exception being handled, and flags set in the handler and tested after the try statement), "
     "__bool__'s fallback returns False and __repr__'s fallback does "
     "not go through the bound object; (R18.5) Local/LocalStack instances have no storage besides the ContextVar (__slots__), the "
-    "ContextVar is bound only in __init__, and the module keeps no mutable module-level or class-level container. "
+    "ContextVar is bound only in __init__, and the module keeps no mutable module-level or class-level container; "
+    "(R18.6) a write is never dropped: every path on which Local.__setattr__ / LocalStack.push return normally passes an unconditionally "
+    "evaluated `<storage>.set(...)` (directly, through a helper that sets its parameter, or through a helper of the module every normal "
+    "path of which binds) - for __setattr__ except on the edge of a test that establishes that the payload holds THIS VERY OBJECT under "
+    "this name already (`<payload>[name] is value`, `<payload>.get(name, <module-level object()>) is value`, `<payload>.get(name) is value` "
+    "only where `name in <payload>` is known because a missing name reads as None there; through `not` / `and` / `or`, local aliases and "
+    "flags computed before the branch): skipping the copy is unobservable only then, whereas equality, truthiness or membership alone "
+    "leave the context holding another object (an equal one inherited from the parent context) or none; for push no test excuses a "
+    "dropped write; an identity comparison / id() / operator.is_ in __setattr__ that the analysis cannot tie to that meaning, next to a "
+    "path without binding, is ANALYSIS-ERROR, not a violation; (R18.7) nothing is reported missing unasked: walking the CFG of "
+    "Local.__getattr__ / __delattr__ (AttributeError) and LocalStack.top / pop (return None / falling off the end) from the entry along "
+    "normal edges, without going beyond any test or loop whose condition depends on the payload (a read of the storage, a local name fed "
+    "by one, a helper / property of the module that reads it), beyond a return, or into an exception handler, reaches no such exit - in the "
+    "method or in a never-returning helper of the module it calls; so the names __getattr__ refuses before consulting the payload are "
+    "exactly those __setattr__ refuses to store (none), a test of the name for the instance's own storage slot name "
+    "(`name == \"_Local__storage\"`, which the slot descriptor answers) aside. "
     "Not decided: the interleaving semantics of contextvars itself (trusted), mutation through the list that LocalStack.push "
-    "returns to its caller, behaviour of Local.__getattr__ for a missing name in a NON-empty namespace beyond the shape checked, "
+    "returns to its caller, WHAT the container bound by a write holds (that it is the old entries plus exactly the assigned object under "
+    "the given name / on top - R18.6 decides only that a binding happens, R18.1 that the bound container is a fresh one), "
+    "behaviour of Local.__getattr__ for a missing name in a NON-empty namespace beyond the shape checked and whether a lookup that does "
+    "consult the payload consults it for the right key (R18.7 decides only that no verdict is reached without a payload-dependent decision; "
+    "refusals raised from inside an exception handler are not followed), "
     "the text of error messages, and the callable-proxy variant (nothing is 'unbound' for a callable)."
 )
 TRUSTED = [
@@ -317,6 +336,8 @@ def run(ctx: Ctx) -> None:
         "R18.3": "late binding: LocalProxy.__init__ only type-tests and stores the proxied object, each _get_current_object variant reads it at call time and keeps no state, _ProxyLookup.__get__ resolves on every instance access and stores nothing",
         "R18.4": "unbound behaviour: an empty payload reads as AttributeError / None, each proxy variant turns that into RuntimeError, _ProxyLookup.__get__ re-raises it exactly when no fallback is declared, __bool__ falls back to False and __repr__ to a text not derived from the bound object",
         "R18.5": "no other storage: Local/LocalStack instances hold only the ContextVar (__slots__), bound once in __init__; no mutable module-level or class-level container",
+        "R18.6": "a write is never dropped: every way of returning from Local.__setattr__ / LocalStack.push has rebound the ContextVar, except (for __setattr__) where the payload is known to hold this very object under this name already (an identity test, not equality / truthiness / membership alone)",
+        "R18.7": "nothing is reported missing unasked: Local.__getattr__ / __delattr__ raise AttributeError, and LocalStack.top / pop return None, only behind a decision that depends on the payload of the current context - never on a test of the name alone",
     }.items():
         ctx.rule(rid, text)
 
@@ -336,6 +357,8 @@ def run(ctx: Ctx) -> None:
     variants = _r3(ctx, flow, storage)
     _r4(ctx, flow, storage, kinds, variants)
     _r5(ctx, flow, storage)
+    _r6(ctx, flow, storage)
+    _r7(ctx, flow, storage, kinds)
     ctx.note("observation (not a finding): LocalStack.push returns the list it has just bound, so a caller can mutate the payload through it; outside the operations C18 quantifies over")
 
 
@@ -2526,3 +2549,377 @@ def _r5(ctx: Ctx, flow: Flow, storage) -> None:
     ctx.ob("R18.5", "werkzeug.local keeps no mutable module-level container", not bad, f"module-level bindings: {sorted(mod.assigns)}" if not bad else f"{bad}", mod.name, None, "module-level containers")
     globs = [norm(n) for n in ast.walk(mod.tree) if isinstance(n, ast.Global)]
     ctx.ob("R18.5", "no function of werkzeug.local rebinds a module-level name", not globs, "no `global` statement" if not globs else f"{globs}", mod.name, None, "global statements")
+
+
+# ---------------------------------------------------------------------------
+# R18.6 - a write is never dropped
+
+
+def _pos_params(u: Unit) -> list[str]:
+    a = u.fi.node.args
+    return [x.arg for x in a.posonlyargs + a.args]
+
+
+def _is_param(u: Unit, e: ast.AST | None, pname: str, depth: int = 0) -> bool:
+    """e is the parameter pname itself: its name, or a local name every reaching definition of which is a plain copy of it."""
+    if isinstance(e, ast.NamedExpr):
+        return _is_param(u, e.value, pname, depth)
+    if not isinstance(e, ast.Name) or depth > 3:
+        return False
+    node = u.cfg.node_of(e)
+    defs = u.rd.reaching(node, e.id) if node is not None else frozenset()
+    if not defs:
+        return False
+    for d in defs:
+        if d.kind == "param":
+            if d.name != pname:
+                return False
+        elif d.kind in ("assign", "walrus") and d.index is None and d.value is not None:
+            if not _is_param(u, d.value, pname, depth + 1):
+                return False
+        else:
+            return False
+    return True
+
+
+def _module_sentinel(flow: Flow, u: Unit, e: ast.AST | None) -> bool:
+    """a module-level name bound once to `object()`: nothing a caller assigns can be it."""
+    if not isinstance(e, ast.Name) or flow._locally_bound(e.id, e, u):
+        return False
+    o = u.outer
+    while o is not None:
+        if Flow._binds(o, e.id):
+            return False
+        o = o.outer
+    vals = flow.module.assigns.get(e.id) or []
+    return len(vals) == 1 and isinstance(vals[0], ast.Call) and dotted(vals[0].func) == "object" and not vals[0].args
+
+
+class _SameObject:
+    """Which conditions of a `__setattr__(name, value)` establish "the payload already holds this very object under this
+    name" - the only state in which not binding is unobservable.  `<payload>[name] is value`; `<payload>.get(name, <module
+    sentinel>) is value`; `<payload>.get(name) is value` only where `name in <payload>` is known (a missing name reads as
+    None there, and None is a value one can assign); through `not`, `and` / `or` and flags computed before the branch."""
+
+    def __init__(self, flow: Flow, u: Unit, pname: str, pvalue: str):
+        self.flow, self.u, self.pname, self.pvalue = flow, u, pname, pvalue
+        self.unrecognised: list[ast.AST] = []  # identity comparisons the analysis does not follow
+        self.understood: set[int] = set()  # ... and those it does (sufficient or not)
+
+    def payload(self, e: ast.AST | None) -> bool:
+        return e is not None and bool(shared(self.flow.tags(e, self.u)))
+
+    def membership(self, e: ast.AST | None) -> str | None:
+        """the truth value of e under which the name is a key of the payload."""
+        if isinstance(e, ast.Compare) and len(e.ops) == 1 and isinstance(e.ops[0], (ast.In, ast.NotIn)) and _is_param(self.u, e.left, self.pname):
+            c = e.comparators[0]
+            if isinstance(c, ast.Call) and isinstance(c.func, ast.Attribute) and c.func.attr == "keys" and not c.args:
+                c = c.func.value
+            if self.payload(c):
+                return "T" if isinstance(e.ops[0], ast.In) else "F"
+        return None
+
+    def _lookup(self, e: ast.AST | None, depth: int = 0) -> str | None:
+        """'item' when e reads the payload's entry for the name such that a missing name cannot be mistaken for a value,
+        'get' when a missing name reads as None; None otherwise."""
+        if isinstance(e, ast.NamedExpr):
+            return self._lookup(e.value, depth)
+        if isinstance(e, ast.Subscript) and isinstance(e.ctx, ast.Load) and self.payload(e.value) and _is_param(self.u, e.slice, self.pname):
+            return "item"
+        if isinstance(e, ast.Call) and isinstance(e.func, ast.Attribute) and e.func.attr == "get" and not e.keywords and self.flow.storage_method(e, self.u) is None \
+                and self.payload(e.func.value) and e.args and _is_param(self.u, e.args[0], self.pname):
+            if len(e.args) == 2 and _module_sentinel(self.flow, self.u, e.args[1]):
+                return "item"
+            if len(e.args) == 1 or (len(e.args) == 2 and astq.is_none(e.args[1])):
+                return "get"
+            return None
+        if isinstance(e, ast.Name) and depth < 3:
+            node = self.u.cfg.node_of(e)
+            defs = self.u.rd.reaching(node, e.id) if node is not None else frozenset()
+            kinds = {self._lookup(d.value, depth + 1) if d.kind in ("assign", "walrus") and d.index is None and d.value is not None else None for d in defs}
+            return kinds.pop() if len(kinds) == 1 else None
+        return None
+
+    def when(self, e: ast.AST | None, member: bool, depth: int = 0) -> set[str]:
+        """truth values of e under which the very object is known to be bound already ({'T'}, {'F'} or nothing).
+        ``member``: the name is known to be a key where e is evaluated."""
+        if e is None or depth > 6:
+            return set()
+        if isinstance(e, ast.NamedExpr):
+            return self.when(e.value, member, depth + 1)
+        if isinstance(e, ast.UnaryOp) and isinstance(e.op, ast.Not):
+            return {_other(x) for x in self.when(e.operand, member, depth + 1)}
+        if isinstance(e, ast.Call) and dotted(e.func) == "bool" and len(e.args) == 1 and not e.keywords:
+            return self.when(e.args[0], member, depth + 1)
+        if isinstance(e, ast.BoolOp):
+            conj = isinstance(e.op, ast.And)
+            res: list[set[str]] = []
+            m = member
+            for v in e.values:
+                res.append(self.when(v, m, depth + 1))
+                if conj and self.membership(v) == "T":
+                    m = True
+                if not conj and self.membership(v) == "F":
+                    m = True
+            out: set[str] = set()
+            strong, weak = ("T", "F") if conj else ("F", "T")
+            if any(strong in r for r in res):  # `a and b` true: both hold; `a or b` false: neither holds
+                out.add(strong)
+            if all(weak in r for r in res):
+                out.add(weak)
+            return out
+        if isinstance(e, ast.Compare) and len(e.ops) == 1 and isinstance(e.ops[0], (ast.Is, ast.IsNot)):
+            l, r = e.left, e.comparators[0]
+            if _is_param(self.u, l, self.pvalue):
+                l, r = r, l
+            if not _is_param(self.u, r, self.pvalue):
+                return set()
+            how = self._lookup(l)
+            if how == "item" or (how == "get" and member):
+                self.understood.add(id(e))
+                return {"T" if isinstance(e.ops[0], ast.Is) else "F"}
+            if how is None:
+                self.unrecognised.append(e)
+            else:
+                self.understood.add(id(e))  # a `.get(name) is value` without the membership: understood, and not sufficient
+            return set()
+        if isinstance(e, ast.Name):
+            node = self.u.cfg.node_of(e)
+            defs = self.u.rd.reaching(node, e.id) if node is not None else frozenset()
+            if len(defs) == 1:
+                d = next(iter(defs))
+                if d.kind in ("assign", "walrus") and d.index is None and d.value is not None and d.node is not None:
+                    return self.when(d.value, member or self.member_at(d.node), depth + 1)
+        return set()
+
+    def member_at(self, node: Node) -> bool:
+        cfg = self.u.cfg
+        for t_ in cfg.tests():
+            if t_ is node or t_.kind != "test":
+                continue
+            lab = self.membership(t_.ast)
+            if lab is not None and cfg.edge_dominates(t_, lab, node):
+                return True
+        return False
+
+    def edges(self) -> list[tuple[Node, str]]:
+        out = []
+        for t_ in self.u.cfg.tests():
+            if t_.kind != "test" or t_.ast is None:
+                continue
+            for lab in self.when(t_.ast, self.member_at(t_)):
+                out.append((t_, lab))
+        return out
+
+
+_IDENTITY_CALLS = {"id", "operator.is_", "operator.is_not", "is_", "is_not"}
+
+
+def _always_binds(flow: Flow, u: Unit, depth: int = 0, skip_edges: t.Iterable[tuple[Node, str]] = ()) -> tuple[bool, list[Node], list[Node]]:
+    """(every way of returning normally from u has rebound a storage ContextVar, the binding nodes, a witness path that
+    has not).  A binding node: an unconditionally evaluated `<storage>.set(...)` (also through a helper that sets its
+    parameter), or a call of a helper of the module that itself always binds."""
+    cfg = u.cfg
+    nodes: list[Node] = []
+    for c_, _ in flow.bindings(u):
+        n = flow.run_node(c_, u)
+        if n is not None:
+            nodes.append(n)
+    if depth < 3:
+        for c_ in u.walk():
+            if not isinstance(c_, ast.Call):
+                continue
+            n = flow.run_node(c_, u)
+            if n is None or any(n is x for x in nodes):
+                continue
+            callees = flow.callees(c_, u)
+            if len(callees) != 1 or callees[0][0] is u:
+                continue
+            cu = callees[0][0]
+            if isinstance(cu.fi.node, ast.AsyncFunctionDef) or any(isinstance(y, (ast.Yield, ast.YieldFrom)) for y in cu.walk()):
+                continue
+            if _always_binds(flow, cu, depth + 1)[0]:
+                nodes.append(n)
+    skip = list(skip_edges)
+    r = cfg.reach(cfg.entry, avoid_nodes=nodes, avoid_edges=skip)
+    if cfg.exit.id not in r:
+        return True, nodes, []
+    ae = {(n.id, l) for n, l in skip}
+    av = {n.id for n in nodes}
+    # witness: BFS that honours both
+    prev: dict[int, Node | None] = {cfg.entry.id: None}
+    q = [cfg.entry]
+    wit: list[Node] = []
+    while q:
+        n = q.pop(0)
+        if n is cfg.exit:
+            cur: Node | None = n
+            while cur is not None:
+                wit.append(cur)
+                cur = prev[cur.id]
+            wit.reverse()
+            break
+        for s, l in n.succs:
+            if s.id in prev or s.id in av or (n.id, l) in ae:
+                continue
+            prev[s.id] = n
+            q.append(s)
+    return False, nodes, wit
+
+
+def _mentions_identity(flow: Flow, u: Unit, depth: int = 0) -> list[ast.AST]:
+    """identity comparisons (other than against None) and id() / operator.is_ calls in u and the helpers it calls."""
+    out: list[ast.AST] = []
+    for n in u.walk():
+        if isinstance(n, ast.Compare) and any(isinstance(o, (ast.Is, ast.IsNot)) for o in n.ops) and not any(astq.is_none(x) for x in [n.left, *n.comparators]):
+            out.append(n)
+        if isinstance(n, ast.Call):
+            if (dotted(n.func) or "") in _IDENTITY_CALLS:
+                out.append(n)
+            if depth < 2:
+                for cu, _ in flow.callees(n, u):
+                    if cu is not u:
+                        out.extend(_mentions_identity(flow, cu, depth + 1))
+    return out
+
+
+def _r6(ctx: Ctx, flow: Flow, storage) -> None:
+    """Local.__setattr__ / LocalStack.push: whatever the arguments, a call that returns has bound the ContextVar."""
+    repo = ctx.repo
+    lc = repo.cls(f"{LOCAL}.Local")
+    ls = repo.cls(f"{LOCAL}.LocalStack")
+    n_writers = 0
+    for c, mname, identity_ok in ((lc, "__setattr__", True), (ls, "push", False)):
+        fi = c.methods.get(mname)
+        if fi is None or c.name not in storage:
+            raise AnalysisError(f"{c.name}.{mname} missing (or {c.name} no longer stores a ContextVar): the write primitive of R18.6 is gone")
+        u = flow.unit_of(fi)
+        n_writers += 1
+        pos = _pos_params(u)
+        same: _SameObject | None = None
+        skip: list[tuple[Node, str]] = []
+        if identity_ok and len(pos) >= 3:
+            same = _SameObject(flow, u, pos[1], pos[2])
+            skip = same.edges()
+        ok, nodes, wit = _always_binds(flow, u, 0, skip)
+        what = f"{fi.qualname}: every call that returns has bound the ContextVar to a container of its own"
+        excused = ("; not binding is excused only where the payload is known to hold this very object under this name already (" + (", ".join(f"`{t_.text()}` {'true' if l == 'T' else 'false'}" for t_, l in skip) or "no such test today") + ")") if identity_ok else ""
+        if not nodes:
+            ctx.ob("R18.6", what, False, "no unconditional `<storage>.set(...)` (direct, or in a helper of the module that always binds) in the method", fi, fi.node, f"{c.name}.{mname} binds")
+            continue
+        if ok:
+            ctx.ob("R18.6", what, True, f"every path to a normal return passes {sorted({f'`{n.text()}`' for n in nodes})}{excused}", fi, nodes[0].ast, f"{c.name}.{mname} binds")
+            continue
+        path = " -> ".join(f"`{n.text()}`" for n in wit if n.ast is not None) or "(straight to the end)"
+        if identity_ok and any(same is None or id(m) not in same.understood for m in _mentions_identity(flow, u)):  # for push no identity excuses a dropped write: the same object pushed twice is on the stack twice
+            # an identity comparison is around that the analysis did not tie to "this very object is bound already"
+            ctx.error(f"R18.6: {fi.qualname}: a path returns without binding the ContextVar ({path}) and the method compares identities in a way the analysis does not follow: cannot decide whether that path is only taken when the object is bound already")
+            continue
+        ctx.ob("R18.6", what, False, f"the path {path} returns without `<storage>.set(...)`: the assignment is dropped although the context may hold another object (an equal one inherited from the parent context, or none){excused}", fi, next((n.ast for n in reversed(wit) if n.ast is not None), fi.node), f"{c.name}.{mname} binds")
+    ctx.floor("R18.6", "write primitives (Local.__setattr__, LocalStack.push)", n_writers, 2)
+
+
+# ---------------------------------------------------------------------------
+# R18.7 - nothing is reported missing before the payload was asked
+
+
+def _slot_name_test(flow: Flow, u: Unit, e: ast.AST | None, pname: str) -> str | None:
+    """the truth value of e under which the name IS the instance's own storage slot (`name == "_Local__storage"`,
+    `name in ("_Local__storage",)`): a name that the slot descriptor answers, never the payload."""
+    if not isinstance(e, ast.Compare) or len(e.ops) != 1:
+        return None
+    l, op, r = e.left, e.ops[0], e.comparators[0]
+    if isinstance(op, (ast.Eq, ast.NotEq)):
+        if _is_param(u, r, pname):
+            l, r = r, l
+        if _is_param(u, l, pname) and astq.const_str(r) in flow.slots:
+            return "T" if isinstance(op, ast.Eq) else "F"
+    if isinstance(op, (ast.In, ast.NotIn)) and _is_param(u, l, pname) and isinstance(r, (ast.Tuple, ast.List, ast.Set)) and r.elts and all(astq.const_str(x) in flow.slots for x in r.elts):
+        return "T" if isinstance(op, ast.In) else "F"
+    return None
+
+
+def _unasked_verdicts(flow: Flow, u: Unit, kind: str, pname: str | None, want: str) -> list[tuple[Node, str]]:
+    """exits of u of the kind that means "nothing is bound" (``want``: 'AttributeError' raised / 'None' returned) that are
+    reached from the entry without any decision that depends on the ContextVar payload: walk the CFG along normal edges,
+    do not go beyond a test / loop whose condition depends on the payload (a read of the storage, a local name fed by one,
+    a helper of the module that reads it), nor beyond a return of something computed from it, nor into exception handlers
+    (they are entered from a failing lookup)."""
+    probe = EmptyRun.__new__(EmptyRun)  # only its dependency query is used: no run
+    probe.flow, probe.unit, probe.kind, probe.owner = flow, u, kind, u.cls
+    probe._dep_active = set()
+    cfg = u.cfg
+    out: list[tuple[Node, str]] = []
+    seen: set[int] = set()
+    work = [cfg.entry]
+    while work:
+        n = work.pop()
+        if n.id in seen:
+            continue
+        seen.add(n.id)
+        a = n.ast
+        if n is cfg.exit:
+            if want == "None" and any(not isinstance(p.ast, ast.Return) and p.id in seen for p, l in n.preds if l != "exc"):
+                out.append((n, "falls off the end (returns None)"))
+            continue
+        if n is cfg.raise_exit:
+            continue
+        if n.kind in ("test", "loop"):
+            cond = a.iter if isinstance(a, (ast.For, ast.AsyncFor)) else a
+            if probe.depends(cond):
+                continue
+            lab = _slot_name_test(flow, u, a, pname) if pname is not None and n.kind == "test" else None
+            work.extend(s for s, l in n.succs if l != "exc" and l != lab)
+            continue
+        if isinstance(a, ast.Raise):
+            if want == "AttributeError" and raised_class(u, a, flow) == "AttributeError":
+                out.append((n, f"`{n.text()}`"))
+            continue
+        if isinstance(a, ast.Return):
+            if want == "None" and (a.value is None or astq.is_none(a.value)):
+                out.append((n, f"`{n.text()}`"))
+            continue
+        if n.kind == "stmt" and a is not None and not isinstance(a, (ast.FunctionDef, ast.AsyncFunctionDef, ast.ClassDef)) and want == "AttributeError":
+            # a helper of the module that never returns: what it raises is raised here
+            ended = False
+            for c_ in [x for x in [a, *walk_no_nested(a)] if isinstance(x, ast.Call)]:
+                callees = flow.callees(c_, u)
+                if len(callees) != 1 or callees[0][0] is u or why_conditional(c_, a) is not None or probe.depends(c_):
+                    continue
+                tu = callees[0][0]
+                if isinstance(tu.fi.node, ast.AsyncFunctionDef) or any(isinstance(y, (ast.Yield, ast.YieldFrom)) for y in tu.walk()):
+                    continue
+                sub = _raise_names(flow, tu, [tu.cfg.entry], 1)
+                if isinstance(sub, list) and sub:
+                    if "AttributeError" in sub:
+                        out.append((n, f"`{n.text()}` (which only raises {sorted(set(str(x) for x in sub))})"))
+                    ended = True
+                    break
+            if ended:
+                continue
+        work.extend(s for s, l in n.succs if l != "exc")
+    return out
+
+
+def _r7(ctx: Ctx, flow: Flow, storage, kinds: dict[str, str]) -> None:
+    """what the readers report when nothing is bound (AttributeError / None) is reported only after the payload of the
+    current context was consulted: a name / a stack is never refused by a test of the name or of anything else alone."""
+    repo = ctx.repo
+    lc = repo.cls(f"{LOCAL}.Local")
+    ls = repo.cls(f"{LOCAL}.LocalStack")
+    n = 0
+    for c, mname, want in ((lc, "__getattr__", "AttributeError"), (lc, "__delattr__", "AttributeError"), (ls, "top", "None"), (ls, "pop", "None")):
+        fi = c.methods.get(mname)
+        if fi is None or c.name not in storage:
+            continue  # R18.4 reports the missing method
+        u = flow.unit_of(fi)
+        pos = _pos_params(u)
+        pname = pos[1] if want == "AttributeError" and len(pos) >= 2 else None
+        bad = _unasked_verdicts(flow, u, kinds[c.name], pname, want)
+        n += 1
+        verdict = "raises AttributeError" if want == "AttributeError" else "returns None"
+        ctx.ob("R18.7", f"{fi.qualname} {verdict} only after a decision that depends on the payload of the current context", not bad,
+               "every such exit lies behind a test / lookup of the payload" + (" (a test for the instance's own slot name aside)" if pname else "") if not bad
+               else f"{bad[0][1]} is reached without consulting the payload: " + ("names that __setattr__ stores are refused before they are looked up, so a bound value reads as missing" if want == "AttributeError" else "a non-empty stack reads as empty"),
+               fi, bad[0][0].ast if bad and bad[0][0].ast is not None else fi.node, f"{c.name}.{mname} unasked {want}")
+    ctx.floor("R18.7", "readers that report 'nothing bound' (Local.__getattr__/__delattr__, LocalStack.top/pop)", n, 4)
